@@ -3,7 +3,7 @@
    tar+gzip, .helmignore matching) are instantiated per case by tables of the answers the
    real libraries gave; a query missing from a table yields a sentinel that cannot match. *)
 From Coq Require Import List String Ascii Bool Arith ZArith.
-From Helm Require Import Values.Tree Chart.Paths Chart.Archive Chart.Files Chart.Save Chart.Load Chart.Ignore Chart.Match Gen.Limits.
+From Helm Require Import Values.Tree Chart.Paths Chart.Archive Chart.Files Chart.Save Chart.Load Chart.Ignore Chart.Match Chart.SaveDir Chart.Wf Gen.Limits.
 Import ListNotations.
 Local Open Scope string_scope.
 
@@ -42,6 +42,15 @@ Fixpoint index_of (m : meta) (l : list meta) (i : nat) : option nat :=
   | [] => None
   | x :: t => if meta_eqb m x then Some i else index_of m t (S i)
   end.
+
+Definition te_eqb (a b : tentry) : bool :=
+  String.eqb (te_name a) (te_name b) && Z.eqb (te_type a) (te_type b) && Z.eqb (te_mode a) (te_mode b) &&
+  Z.eqb (te_size a) (te_size b) && String.eqb (te_data a) (te_data b).
+
+(* the stream a well-formed archive of exactly these entries decodes to *)
+Definition stream_is (es : list tentry) (s : tstream) : bool :=
+  negb (ts_gzerr s) && negb (ts_err s) && forallb (fun e => negb (te_rerr e)) (ts_entries s) &&
+  list_eqb te_eqb es (ts_entries s).
 
 Section WithOracle.
   Variable o : oracle.
@@ -103,6 +112,21 @@ Section WithOracle.
   Definition mt := max_decompressed_chart_size.
   Definition mf := match o_maxfile o with Some z => z | None => max_decompressed_file_size end.
 
+  (* tar+gzip of Save for a dependency written by SaveDir: the bytes on disk are not reproducible
+     (time stamps); the table of decoded nested archives is searched for one with these entries *)
+  Definition r_tgz (es : list tentry) : string :=
+    match filter (fun ds => stream_is es (snd ds)) (o_untar o) with
+    | ds :: _ => fst ds
+    | [] => missing
+    end.
+  Definition m_save_dir := save_dir r_enc r_lockenc r_json r_san r_semver r_rest r_tgz.
+  (* two contents of a directory entry agree: the same bytes, or two archives with the same entries *)
+  Definition data_agree (a b : string) : bool :=
+    String.eqb a b ||
+    match find String.eqb a (o_untar o), find String.eqb b (o_untar o) with
+    | Some s1, Some s2 => stream_is (ts_entries s1) s2 && stream_is (ts_entries s2) s1
+    | _, _ => false
+    end.
   Definition m_save := save r_enc r_lockenc r_json r_san r_semver r_rest.
   Definition m_package := package r_enc r_lockenc r_json r_san r_semver r_rest r_depnames.
   Definition m_load_files := load_files r_merge r_lockdec r_values r_untar r_san r_semver r_rest mt mf fuel.
@@ -131,10 +155,6 @@ Inductive case :=
 | CMatchEx (rows : list (string * string))   (* (pattern, results over [ex_names]) *)
 | COracleOnly
 | CPanic.
-
-Definition te_eqb (a b : tentry) : bool :=
-  String.eqb (te_name a) (te_name b) && Z.eqb (te_type a) (te_type b) && Z.eqb (te_mode a) (te_mode b) &&
-  Z.eqb (te_size a) (te_size b) && String.eqb (te_data a) (te_data b).
 
 (* implementation errors are compared by class; a wrapped archive error only as "archive" *)
 Definition lres_eqb (a b : lerr + chart) : bool :=
@@ -168,6 +188,21 @@ Definition ex_names : list string :=
   let l0 := [EmptyString] in let l1 := ex_extend l0 in let l2 := ex_extend l1 in let l3 := ex_extend l2 in
   (l0 ++ l1 ++ l2 ++ l3 ++ ["-"; "^"; "]"; "\"; "*"; "?"; "["; "a-"; "ab]"; "a]"; "^a"])%list.
 
+(* directory trees are compared as sets of (path, content): both listings sorted by path *)
+Fixpoint insert_file (x : file) (l : list file) : list file :=
+  match l with
+  | [] => [x]
+  | y :: t => if str_leb (f_name x) (f_name y) then x :: l else y :: insert_file x t
+  end.
+Definition sort_files (l : list file) : list file := fold_right insert_file [] l.
+Definition tree_agree (o : oracle) (a b : option (list file)) : bool :=
+  match a, b with
+  | None, None => true
+  | Some x, Some y =>
+      list_eqb (fun f g => String.eqb (f_name f) (f_name g) && data_agree o (f_data f) (f_data g)) (sort_files x) (sort_files y)
+  | _, _ => false
+  end.
+
 Definition case_ok (c : case) : bool :=
   match c with
   | CMatch p names res ign => String.eqb (match_row p names) res && String.eqb (ignore_row p names) ign
@@ -182,7 +217,9 @@ Definition case_ok (c : case) : bool :=
       match tree with
       | Some t => lres_eqb (m_load_dir o t) dirloaded
       | None => true
-      end
+      end &&
+      (* SaveDir: the tree it wrote (compared when the chart name is an ordinary directory name) *)
+      (if wf_cname (m_name (c_meta ch)) then tree_agree o (m_save_dir o ch) tree else true)
   | CFiles o files loaded => lres_eqb (m_load_files o files) loaded
   | CDir o ignerr pkgver tree loaded packaged =>
       let res := m_load_dir o tree in
